@@ -33,6 +33,23 @@ func (d *Design) Lower() *dt.Program {
 type lowerer struct {
 	d        *Design
 	declared map[string]bool // user types already assigned to their variable
+	picks    uint64          // number of spelling choices made so far
+}
+
+// pick chooses among n equivalent spellings: a function of Design.Style and of
+// the position of the choice (0 when Style is 0).
+func (l *lowerer) pick(n int) int {
+	if l.d.Style == 0 || n <= 1 {
+		return 0
+	}
+	l.picks++
+	x := l.d.Style + l.picks*0x9E3779B97F4A7C15
+	x ^= x >> 30
+	x *= 0xBF58476D1CE4E5B9
+	x ^= x >> 27
+	x *= 0x94D049BB133111EB
+	x ^= x >> 31
+	return int(x % uint64(n))
 }
 
 func (l *lowerer) api() *dt.Node {
@@ -237,7 +254,12 @@ func (l *lowerer) objectBody(t *Type) []*dt.Node {
 			req = append(req, dt.S(f.Name))
 		}
 	}
-	if len(req) > 0 {
+	if len(req) > 1 && l.pick(3) == 1 {
+		// one Required call per attribute
+		for _, r := range req {
+			b = append(b, dt.N("Required", r))
+		}
+	} else if len(req) > 0 {
 		b = append(b, dt.N("Required", req...))
 	}
 	return b
@@ -467,12 +489,16 @@ func (l *lowerer) errorDef(e *ErrorDef) *dt.Node {
 }
 
 func (l *lowerer) errorResponse(er *ErrorResponse) *dt.Node {
+	var b []*dt.Node
+	for _, h := range er.Headers {
+		b = append(b, dt.N("Header", dt.S(mapName(h))))
+	}
+	if l.pick(3) == 1 {
+		// Response("name", func(){ Code(status); ... })
+		return dt.N("Response", dt.S(er.Name)).With(append([]*dt.Node{dt.N("Code", dt.C(statusConst(er.Status)))}, b...)...)
+	}
 	n := dt.N("Response", dt.S(er.Name), dt.C(statusConst(er.Status)))
-	if len(er.Headers) > 0 {
-		var b []*dt.Node
-		for _, h := range er.Headers {
-			b = append(b, dt.N("Header", dt.S(mapName(h))))
-		}
+	if len(b) > 0 {
 		n.With(b...)
 	}
 	return n
@@ -633,6 +659,14 @@ func (l *lowerer) httpEndpoint(m *Method) *dt.Node {
 	for _, r := range h.Routes {
 		b = append(b, dt.N(verbs[r.Verb], dt.S(r.Path)))
 	}
+	if len(h.Path) > 0 && l.pick(3) == 1 {
+		// path parameters declared explicitly, ahead of the query parameters
+		for _, p := range h.Path {
+			if p.Wire == "" || p.Wire == p.Attr {
+				b = append(b, dt.N("Param", dt.S(p.Attr)))
+			}
+		}
+	}
 	for _, p := range h.Query {
 		b = append(b, dt.N("Param", dt.S(mapName(p))))
 	}
@@ -688,7 +722,10 @@ func (l *lowerer) httpEndpoint(m *Method) *dt.Node {
 		if r.Body != nil {
 			rb = append(rb, l.bodyNode(r.Body))
 		}
-		if len(rb) > 0 {
+		if l.pick(3) == 1 {
+			// Response(func(){ Code(status); ... })
+			n = dt.N("Response").With(append([]*dt.Node{dt.N("Code", dt.C(statusConst(r.Status)))}, rb...)...)
+		} else if len(rb) > 0 {
 			n.With(rb...)
 		}
 		b = append(b, n)
